@@ -517,7 +517,9 @@ def gen_leaf(rng, prof, st):
         if (keys & st["rangefields"]) and not st.get("popB"):
             return ("term", fld, rng.choice(vocab))
         st["rangefields"].update(keys)
-        a, b = sorted([rng.choice(vocab), rng.choice(vocab)])
+        towords = [w for w in vocab if "to" in w]     # bounds that contain the letters of the separator
+        a, b = sorted([rng.choice(towords if rng.random() < 0.3 else vocab),
+                       rng.choice(towords if rng.random() < 0.3 else vocab)])
         if rng.random() < 0.3:
             a = a[:rng.randint(1, len(a))]
         if rng.random() < 0.3:
